@@ -61,8 +61,8 @@ and expr_inner (x : Sx.t) : Ast.expr_inner =
   match x with
   | Sx.Atom "true" -> Ast.ETrue
   | Sx.Atom "false" -> Ast.EFalse
-  | Sx.L [Sx.Atom "nu"; n] -> Ast.ENumU (atomn n)
-  | Sx.L [Sx.Atom "ns"; n] -> Ast.ENumS (atomz n)
+  | Sx.L [Sx.Atom "nu"; n; lb] -> Ast.ENumU (atomn n, atomn lb)
+  | Sx.L [Sx.Atom "ns"; n; lb] -> Ast.ENumS (atomz n, atomn lb)
   | Sx.L [Sx.Atom "id"; n] -> Ast.EId (atomn n)
   | Sx.L (Sx.Atom "arrlit" :: es) -> Ast.EArrLit (Stdlib.List.map expr es)
   | Sx.L [Sx.Atom "arrrep"; e; n] -> Ast.EArrRep (expr e, atomn n)
@@ -152,3 +152,19 @@ let job_sizes (job : Sx.t) : string =
     Printf.sprintf "(params %s) (ret %s)"
       (join (fun (_, t) -> string_of_n (Sem.sizeof p t)) d.Ast.fn_params)
       (string_of_n (Sem.sizeof p d.Ast.fn_ret))
+
+
+(* `lowerm` jobs: lower the exported typed AST with the model of compile.rs (coq/Compile/Lower.v), dedup on
+   and off, and print the circuits in the syntax of the harness *)
+let job_lowerm (job : Sx.t) : string =
+  let p = program (Stdlib.List.hd (Sx.args (Sx.field job "ast"))) in
+  let one name dedup =
+    match Lower.lower_program dedup p with
+    | Util.Ok (Lower.LCircuit c) -> Printf.sprintf "(%s %s)" name (Jcirc.fmt_ssa c)
+    | Util.Ok Lower.LNoMain -> Printf.sprintf "(%s no-main)" name
+    | Util.Ok Lower.LZeroSizedInputs -> Printf.sprintf "(%s zero-sized-inputs)" name
+    | Util.Crash -> Printf.sprintf "(%s crash)" name
+    | Util.OutOfFuel -> Printf.sprintf "(%s out-of-fuel)" name in
+  let a = one "dedup" true in
+  let b = one "nodedup" false in
+  a ^ " " ^ b
